@@ -509,7 +509,7 @@ def rule_e3(repo, res):
                 removes_nl = regex_may_match_newline(pat) and not (isinstance(repl, ast.Constant) and "\n" in str(repl.value))
                 res.oblige("E3", f"{cname}.parse: re.sub({pat!r}, …) before lexing keeps line structure", ok=not removes_nl)
                 if removes_nl:
-                    res.add(Finding("E3", f"{cname}.parse", f"re.sub({pat!r}, {norm(repl)}, …)",
+                    res.add(Finding("E3", f"{cname}.parse", "whole-document rewrite removes line ends before lexing",
                                     f"{cname}.parse rewrites the whole document with re.sub({pat!r}, {norm(repl)}, s) before "
                                     "lexing; the pattern can match a line feed and the replacement has none, so every "
                                     "line number computed afterwards (EmptyValueAtLine.lineno, module.errors, "
